@@ -247,7 +247,8 @@ def run(ctx):
     import gemato.hash as gh
     ctx.rule = ('contents of every length 0..300, around 64 KiB and 1 MiB (+-2), random longer ones; read schedules with arbitrary '
                 'short chunks (duck-typed schedule with exact chunk control, and a real BufferedReader over a short-reading raw stream, '
-                'and real files); every size hint (0, true, smaller, larger); all hash names. Oracle: one-shot hashlib, coreutils. '
+                'and real files); every size hint (0, true, smaller, larger; stale hints at multiples of the read size above the slurp limit '
+                'with reads landing exactly on them); all hash names. Oracle: one-shot hashlib, coreutils. '
                 'Correspondence: the bytes the Lean model feeds (identity hash) hash to the digests the implementation returned. '
                 'non-trivial = distinct non-empty content/schedule/hint')
     ctx.assumptions = ["hashlib's md5 is MD5 etc.: checked against coreutils only", 'streaming law of hashlib objects is a hypothesis of C17_any_schedule',
@@ -276,6 +277,15 @@ def run(ctx):
                 hint = rng.choice([0, ln, max(0, ln - 1), ln + 1, 1, ln // 2, 2 * ln + 7, H['slurp'] - 1, H['slurp'], H['slurp'] + 1])
                 names = [rng.choice(fixed_names)] if ln > 300 else rng.sample(fixed_names, 2)
                 case(ctx, drv, runs, cuts, hint, names, 'scheduled', H)
+        # a stale size hint on the chunked path (the file grew between fstat() and the reads): hints that are whole multiples of
+        # the read size at or above the slurp limit, contents longer than the hint, reads landing exactly on the hint
+        q = ctx.tier == 'quick'
+        for hint in ((H['slurp'], H['slurp'] + H['buf']) if q else (H['slurp'], H['slurp'] + H['buf'], H['slurp'] + 3 * H['buf'])):
+            for extra in ((1, H['buf']) if q else (1, 5, H['buf'], H['buf'] + 1, hint)):
+                ln = hint + extra
+                runs = runs_content(rng, ln)
+                for cuts in ([], list(range(H['buf'], ln, H['buf'])), [hint]):
+                    case(ctx, drv, runs, cuts, hint, [rng.choice(fixed_names)], 'stale-hint', H)
         for i in range(400 if ctx.tier == 'quick' else 3000):
             ln = rng.choice([0, 1, 7, 300, 5000, H['buf'], H['buf'] + 1, 200000])
             content = bytes(rng.randrange(256) for _ in range(min(ln, 2048))) * (ln // 2048 + 1)
